@@ -25,8 +25,8 @@ theorem tie_transactOnConn_sem (f : Faults) (b : Body) :
   unfold transactOnConn transactOnce
   generalize (runBody b).1 = evs
   generalize (runBody b).2 = out
-  obtain ⟨bg, cm, rb, bc, cp, rp⟩ := f
-  cases hg : Faults.givesUp ⟨bg, cm, rb, bc, cp, rp⟩ <;>
+  obtain ⟨bg, cm, rb, bc, cp, rp, cc, rc⟩ := f
+  cases hg : Faults.givesUp ⟨bg, cm, rb, bc, cp, rp, cc, rc⟩ <;>
   cases bg <;> cases cp <;> cases rp <;> cases out <;>
     simp [transactOnConnBlk, run, outcome, assign, doInit, evalCond, doRet, callBody, fmtErr, argVal, Err.of, hg,
       badPrefix_append] <;> cases cm <;> cases rb <;> simp
@@ -151,6 +151,135 @@ theorem tie_wire_session_helpers :
     wireFromSession = ["return txConn{ Session: session, }"] ∧
     wireTxConnTransact = ["return errCantNestTx"] ∧ wireTxConnTransactCtx = ["return errCantNestTx"] ∧
     errCantNestTxInit = "errors.New(\"cannot nest transactions\")" := by decide
+
+/-! ### round 4: semantic ties of the decision-making conditions on the path -/
+
+theorem any_or_fun {α} (l : List α) (p q : α → Bool) :
+    l.any (fun x => p x || q x) = (l.any p || l.any q) := by
+  induction l with
+  | nil => rfl
+  | cons x l ih =>
+    simp only [List.any_cons, ih]
+    cases p x <;> cases q x <;> cases l.any p <;> cases l.any q <;> rfl
+
+theorem any_and_const {α} (l : List α) (a : Bool) (p : α → Bool) :
+    l.any (fun x => a && p x) = (a && l.any p) := by
+  cases a <;> simp
+
+/-- the model's `acceptable`, spelled with the probes the code makes (`errors.Is` per sentinel, `errors.As`,
+the installed user functions) -/
+theorem acceptable_probes (ua : UA) (e : Option Err) :
+    acceptable ua e = (e.isNone || hasCls e .noRows || hasCls e .txDone || hasCls e .canceled ||
+      hasCls e .accType || (ua.a1 && hasCls e .userOk) || (ua.a2 && hasCls e .userOk2)) := by
+  cases e with
+  | none => rfl
+  | some e =>
+    have hf : srcAcceptable ua = fun s =>
+        (srcCls s == some .noRows) || (srcCls s == some .txDone) || (srcCls s == some .canceled) ||
+        (srcCls s == some .accType) || (ua.a1 && srcCls s == some .userOk) ||
+        (ua.a2 && srcCls s == some .userOk2) := by
+      funext s
+      obtain ⟨a1, a2⟩ := ua
+      cases s with
+      | body c => cases c <;> cases a1 <;> cases a2 <;> rfl
+      | commit c => cases c <;> cases a1 <;> cases a2 <;> rfl
+      | rollback c => cases c <;> cases a1 <;> cases a2 <;> rfl
+      | _ => cases a1 <;> cases a2 <;> rfl
+    simp only [acceptable, hasCls, hf, any_or_fun, any_and_const, Option.isNone, Bool.false_or]
+
+/-- **Semantic tie of `commonSqlConn.acceptable`.**  Its decision chain, translated from the source *now*
+(`err == nil || errorx.In(err, sql.ErrNoRows, sql.ErrTxDone, context.Canceled)` → true; `errors.As(err, &e)` with
+`var e acceptableError` → true; `db.accept == nil` → false; else `db.accept(err)`), evaluated with short-circuit
+`||`, equals the model's `acceptable` for EVERY error and every WithAcceptable configuration.  A dropped or added
+sentinel, `&&` for `||`, an inverted nil test, a changed default, a different type for `e` break it. -/
+theorem tie_acceptable_sem (ua : UA) (e : Option Err) :
+    evalRC { err := e, fns := [("db.accept", uaFn ua)] } acceptableRC = some (acceptable ua e) := by
+  rw [acceptable_probes]
+  obtain ⟨a1, a2⟩ := ua
+  cases a1 <;> cases a2 <;> cases h0 : e.isNone <;> cases h1 : hasCls e .noRows <;> cases h2 : hasCls e .txDone <;>
+    cases h3 : hasCls e .canceled <;> cases h4 : hasCls e .accType <;>
+    simp [acceptableRC, evalRC, evalBX, sentinelCls, uaFn, List.lookup, h0, h1, h2, h3, h4]
+
+/-- **Semantic tie of `WithAcceptable`.**  Its option closure, translated: the condition is `conn.accept == nil`;
+then the given function is installed as it is; otherwise the previous function is kept (`pre := conn.accept`)
+and the installed closure answers `pre(err) || acceptable(err)` for every error — i.e. the model's
+`withAcceptable`.  Dropping `pre`, `&&` for `||`, an inverted condition break it. -/
+theorem tie_withAcceptable_sem :
+    withAcceptableParam = "acceptable" ∧
+    (∀ cur : AccFn, evalBX { err := none, fns := [("conn.accept", cur)] } withAcceptableCond = some cur.isNone) ∧
+    withAcceptableThen = .name "acceptable" ∧
+    withAcceptableLets = [("pre", .name "conn.accept")] ∧
+    (∃ body, withAcceptableElse = .lam body ∧
+      ∀ (pre new : Option Err → Bool) (e : Option Err),
+        evalBX { err := e, fns := [("pre", some pre), ("acceptable", some new)] } body = some (pre e || new e) ∧
+        withAcceptable (some pre) new = some (fun e => pre e || new e) ∧ withAcceptable none new = some new) := by
+  refine ⟨by decide, ?_, by decide, by decide, ⟨_, rfl, ?_⟩⟩
+  · intro cur; cases cur <;> simp [withAcceptableCond, evalBX, List.lookup]
+  · intro pre new e
+    refine ⟨?_, rfl, rfl⟩
+    cases h1 : pre e <;> cases h2 : new e <;> simp [evalBX, List.lookup, h1, h2]
+
+/-- the constructors apply the options in order to the connection they return (`for _, opt := range opts
+{ opt(conn) }`), after the literal is built -/
+theorem tie_option_loops :
+    wireNewSqlConn = ["func:return getSqlConn(driverName, datasource)", "call opt(conn)", "return conn"] ∧
+    wireNewSqlConnFromDB = ["func:return db, nil", "call opt(conn)", "return conn"] ∧
+    newSqlConnFromDBShape = ["func{", "return", "}", "func{", "}", "call breaker.NewBreaker", "range opts {",
+      "call opt", "}", "return"] := by decide
+
+/-- **Semantic tie of `transact`.**  Its control-flow term, read from the source now and run under `runOuter`
+(connection provider; on failure `onError` and that error; else the run of the term of `transactOnConn`),
+gives exactly the model's `transactFn` — log, body runs, returned error, escaping driver panic — for every
+provider answer, fault plan and body. -/
+theorem tie_transact_sem (connOk : Bool) (f : Faults) (b : Body) :
+    outcome (runOuter ⟨f, (runBody b).1, .ret (runBody b).2⟩ connOk transactOnConnBlk transactBlk {}) =
+      some ((transactFn connOk f b).log, (transactFn connOk f b).runs, (transactFn connOk f b).ret,
+            (transactFn connOk f b).escaped) := by
+  have h := tie_transactOnConn_sem f b
+  cases connOk
+  · simp [transactBlk, runOuter, evalCond, outcome, transactFn, Err.of]
+  · have hr : runOuter ⟨f, (runBody b).1, .ret (runBody b).2⟩ true transactOnConnBlk transactBlk {} =
+        { run ⟨f, (runBody b).1, .ret (runBody b).2⟩ transactOnConnBlk {} with returned := true } := by
+      simp [transactBlk, runOuter, evalCond]
+    rw [hr]
+    simpa [outcome, transactFn] using h
+
+/-- `begin`: `db.Begin()`; its error is returned with a nil transaction; else the session around the new Tx -/
+theorem tie_beginBlk : beginBlk =
+    (.assignErr (.call "db.Begin()") <|
+     .ifc "" "err != nil" (.other "return nil, err" .done) .done <|
+     .other "return txSession{ Tx: tx, }, nil" .done) := by decide
+
+/-- the statement methods a body uses inside the transaction all go to the transaction's own `*sql.Tx` with the
+context they were given (ctx-less ones: `context.Background()`); a Session built from a raw Tx
+(`NewSessionFromTx`) is the same `txSession`; `ErrNotFound` is `sql.ErrNoRows` in both packages -/
+theorem tie_wire_txSession :
+    wireTxExec = ["return t.ExecCtx(context.Background(), q, args...)", "call t.ExecCtx(context.Background(), q, args...)"] ∧
+    wireTxQueryRow = ["return t.QueryRowCtx(context.Background(), v, q, args...)",
+                      "call t.QueryRowCtx(context.Background(), v, q, args...)"] ∧
+    wireTxQueryRows = ["return t.QueryRowsCtx(context.Background(), v, q, args...)",
+                       "call t.QueryRowsCtx(context.Background(), v, q, args...)"] ∧
+    wireTxPrepare = ["return t.PrepareCtx(context.Background(), q)", "call t.PrepareCtx(context.Background(), q)"] ∧
+    wireTxQueryRowCtx.take 2 =
+      ["return query(ctx, t.Tx, func(rows *sql.Rows) error { return unmarshalRow(v, rows, true) }, q, args...)",
+       "call query(ctx, t.Tx, func(rows *sql.Rows) error { return unmarshalRow(v, rows, true) }, q, args...)"] ∧
+    wireTxQueryRowsCtx.take 2 =
+      ["return query(ctx, t.Tx, func(rows *sql.Rows) error { return unmarshalRows(v, rows, true) }, q, args...)",
+       "call query(ctx, t.Tx, func(rows *sql.Rows) error { return unmarshalRows(v, rows, true) }, q, args...)"] ∧
+    wireTxQueryRowPartialCtx.take 1 =
+      ["return query(ctx, t.Tx, func(rows *sql.Rows) error { return unmarshalRow(v, rows, false) }, q, args...)"] ∧
+    wireTxQueryRowsPartialCtx.take 1 =
+      ["return query(ctx, t.Tx, func(rows *sql.Rows) error { return unmarshalRows(v, rows, false) }, q, args...)"] ∧
+    wireTxPrepareCtx = ["call t.Tx.PrepareContext(ctx, q)", "return nil, err",
+                        "return statement{ query: q, stmt: stmt, brk: breaker.NopBreaker(), }, nil"] ∧
+    wireNewSessionFromTx = ["return txSession{Tx: tx}"] ∧
+    wireTxConnRawDB = ["return nil, errNoRawDBFromTx"] ∧
+    errNotFoundInit = "sql.ErrNoRows" ∧ cachedErrNotFoundInit = "sqlx.ErrNotFound" := by decide
+
+/-- a `CachedConn` keeps the SqlConn it was given (every cached constructor ends in `NewConnWithCache`) -/
+theorem tie_cached_constructors :
+    litNewConnWithCache = ["db: db", "cache: c"] ∧ wireNewConn = ["return NewConnWithCache(db, cc)"] ∧
+    wireNewNodeConn = ["return NewConnWithCache(db, c)"] := by decide
 
 /-- a statement of the body made with a context goes to `sql.Tx.ExecContext` with that context (it is
 database/sql that refuses it once the context is done) -/
